@@ -572,19 +572,16 @@ impl<C: Config, Q: Query> Snapshot<C, Q> {
 
     pub(super) async fn get_backward_projection_lock_guard(
         mut self,
-        caller_information: &CallerInformation,
+        _caller_information: &CallerInformation,
     ) -> Option<(Self, BackwardProjectionLockGuard<C>)> {
         let pending_backward_projection =
             PendingBackwardProjection { notify: Arc::new(Notify::new()) };
 
         let engine = self.engine().clone();
 
-        // double check if we really need to get the lock
-        if self
-            .pending_backward_projection()
-            .await
-            .is_none_or(|x| x.0 != caller_information.timestamp())
-        {
+        // double check if we really need to get the lock (the flag is
+        // honoured whatever the epoch it was recorded in, see `fast_path`)
+        if self.pending_backward_projection().await.is_none() {
             return None;
         }
 
